@@ -1,5 +1,6 @@
 import DmrVerif.Lemmas.BurstData
 import DmrVerif.Lemmas.BurstProbes
+import DmrVerif.Lemmas.BurstEntry
 
 /-!
 # C01 — a burst the library assembles is parsed back identically, and re-assembles
@@ -190,6 +191,104 @@ theorem reuse_parsed (q b2 : Burst) (p2 : Payload) (cc2 s2 : Nat) (hq : q.isData
       = Burst.serialise b2 :=
   Burst.reassign_parsed q b2 p2 cc2 s2 hq h2
 
+/-! ## every entry point that yields a burst object; attributes set by hand (hardening after seeded change C01-F)
+
+`Burst.from_mmdvm` and `Burst.from_hytera_ipsc` are the constructor on the 264 burst bits with an announced
+burst type derived from the transport frame, followed by assignments to the attributes outside the ETSI
+burst (`Aux`: timeslot — the only way a library path sets it to 2 —, sequence number, radio ids, stream
+number, the IPSC frame).  The serialisation of a burst object (`BurstObj.serialise`) is that of its ETSI
+part: none of these attributes is read, whoever sets them.  So the three round trips hold through every
+entry point, for both timeslots and every value of the other frame fields.  The real entry points are
+compared with `fromMmdvm` / `fromIpsc` by the correspondence (driver ops `burst.mmdvm`, `burst.ipsc`), and
+the harness sets every public attribute by hand on objects of every entry point × every SYNC pattern. -/
+
+/-- `as_bits` reads none of the attributes outside the ETSI burst: whatever values they are given (by
+an entry point or by hand) the object serialises the same -/
+theorem serialise_ignores_aux (o : BurstObj) (a : Aux) :
+    ({ o with aux := a } : BurstObj).serialise = o.serialise := rfl
+
+/-- the `timeslot` attribute `from_mmdvm` sets is 1 or 2; an `Enum` member in `frame_type` (every frame
+the Kaitai parser returns) is announced as vocoder; both IPSC timeslot values map to 1 and 2 -/
+theorem entry_timeslots (f : MmdvmFrame) :
+    ((Burst.mmdvmAux f).timeslot = 1 ∨ (Burst.mmdvmAux f).timeslot = 2)
+    ∧ (∀ v, f.frameType = .member v → Burst.mmdvmAnnounced f = .vocoder)
+    ∧ ipscTimeslots.map (·.2) = [1, 2] :=
+  ⟨Burst.mmdvmAux_timeslot f, Burst.mmdvmAnnounced_member f, Burst.ipsc_timeslots⟩
+
+/-- **data bursts through `from_mmdvm`**: the burst assembled from any supported payload, colour code
+and data SYNC, carried in a DMRD frame with ANY slot bit, frame type, sequence number, ids and stream:
+parsed to the same slot type, sync and payload, and the object — timeslot 1 or 2 — serialises to the
+identical 264 bits -/
+theorem mmdvm_data_roundtrip (c : Crcs) (p : Payload) (hp : Burst.Built c p) (cc : Nat) (hcc : cc < 16) (s : Nat)
+    (hs : s ∈ dataSyncs) (f : MmdvmFrame) (b : Burst) (hb : Burst.build p cc s = .ok b)
+    (hx : Burst.serialise b = .ok f.dmrBits) :
+    ∃ o, Burst.fromMmdvm c f = .ok o ∧ o.aux = Burst.mmdvmAux f
+      ∧ o.core.slotType = some ⟨cc, p.dataType, SlotType.genParity cc p.dataType⟩ ∧ o.core.sync = .pattern s
+      ∧ o.core.data = some (Burst.parsedView c p) ∧ o.serialise = .ok f.dmrBits := by
+  obtain ⟨b', x, q, h1, h2, _, h4, _, _, h7, h8, h9, _, h11⟩ :=
+    Burst.data_roundtrip c p hp cc hcc s hs (Burst.mmdvmAnnounced f)
+  have hbb : b' = b := by rw [hb] at h1; exact (Except.ok.inj h1).symm
+  subst hbb
+  have hxx : x = f.dmrBits := by rw [h2] at hx; exact Except.ok.inj hx
+  subst hxx
+  exact ⟨⟨q, Burst.mmdvmAux f⟩, Burst.fromMmdvm_of_parse c f q h4, rfl, h7, h8, h9, h11⟩
+
+/-- **data bursts through `from_hytera_ipsc`** (every slot type / call type that yields a `Burst`, both
+timeslots) -/
+theorem ipsc_data_roundtrip (c : Crcs) (p : Payload) (hp : Burst.Built c p) (cc : Nat) (hcc : cc < 16) (s : Nat)
+    (hs : s ∈ dataSyncs) (f : IpscFrame) (bt : BurstType) (hk : Burst.ipscKind f = .ok (.plain bt)) (b : Burst)
+    (hb : Burst.build p cc s = .ok b) (hx : Burst.serialise b = .ok f.payloadBits) :
+    ∃ o, Burst.fromIpsc c f = .ok (some o) ∧ o.aux = Burst.ipscAux f
+      ∧ o.core.slotType = some ⟨cc, p.dataType, SlotType.genParity cc p.dataType⟩ ∧ o.core.sync = .pattern s
+      ∧ o.core.data = some (Burst.parsedView c p) ∧ o.serialise = .ok f.payloadBits := by
+  obtain ⟨b', x, q, h1, h2, _, h4, _, _, h7, h8, h9, _, h11⟩ := Burst.data_roundtrip c p hp cc hcc s hs bt
+  have hbb : b' = b := by rw [hb] at h1; exact (Except.ok.inj h1).symm
+  subst hbb
+  have hxx : x = f.payloadBits := by rw [h2] at hx; exact Except.ok.inj hx
+  subst hxx
+  exact ⟨⟨q, Burst.ipscAux f⟩, Burst.fromIpsc_of_parse c f bt q hk h4, rfl, h7, h8, h9, h11⟩
+
+/-- **voice bursts around a voice SYNC through both transports**, whatever the frame announces -/
+theorem entry_voice_sync_roundtrip (c : Crcs) (v : Bits) (hv : v.length = 216) (s : Nat) (hs : s ∈ voiceSyncs) :
+    (∀ f : MmdvmFrame, f.dmrBits = Burst.voiceFrame v (natToBits 48 s) →
+      ∃ o, Burst.fromMmdvm c f = .ok o ∧ o.serialise = .ok f.dmrBits)
+    ∧ (∀ (f : IpscFrame) (bt : BurstType), Burst.ipscKind f = .ok (.plain bt) →
+      f.payloadBits = Burst.voiceFrame v (natToBits 48 s) →
+      ∃ o, Burst.fromIpsc c f = .ok (some o) ∧ o.serialise = .ok f.payloadBits) := by
+  constructor
+  · intro f hf
+    obtain ⟨q, h1, _, _, _, _, h6⟩ := Burst.voice_sync_roundtrip c v hv s hs (Burst.mmdvmAnnounced f)
+    rw [← hf] at h1 h6
+    exact ⟨⟨q, Burst.mmdvmAux f⟩, Burst.fromMmdvm_of_parse c f q h1, h6⟩
+  · intro f bt hk hf
+    obtain ⟨q, h1, _, _, _, _, h6⟩ := Burst.voice_sync_roundtrip c v hv s hs bt
+    rw [← hf] at h1 h6
+    exact ⟨⟨q, Burst.ipscAux f⟩, Burst.fromIpsc_of_parse c f bt q hk h1, h6⟩
+
+/-- **voice bursts around valid EMB through both transports**: every DMRD frame object the Kaitai parser
+returns (`frame_type` an `Enum` member — or any int but 2), every IPSC frame whose slot type is a
+vocoder slot type -/
+theorem entry_voice_emb_roundtrip (c : Crcs) (v : Bits) (hv : v.length = 216) (cc pi lcss : Nat)
+    (hcc : cc < 16) (hpi : pi < 2) (hl : lcss < 4) (e32 : Bits) (he : e32.length = 32) :
+    let x := Burst.voiceFrame v (Burst.embCenter (Emb.enc ⟨cc, pi, lcss, Emb.genParity cc pi lcss⟩) e32)
+    (∀ f : MmdvmFrame, f.frameType.eqInt 2 = false → f.dmrBits = x →
+      ∃ o, Burst.fromMmdvm c f = .ok o ∧ o.core.hasEmb = true ∧ o.serialise = .ok x)
+    ∧ (∀ f : IpscFrame, Burst.ipscKind f = .ok (.plain .vocoder) → f.payloadBits = x →
+      ∃ o, Burst.fromIpsc c f = .ok (some o) ∧ o.core.hasEmb = true ∧ o.serialise = .ok x) := by
+  intro x
+  constructor
+  · intro f hft hf
+    have ha : Burst.mmdvmAnnounced f = .vocoder := by simp [Burst.mmdvmAnnounced, hft]
+    obtain ⟨q, h1, h2, _, _, _, _, h7⟩ :=
+      Burst.voice_emb_roundtrip c v hv cc pi lcss hcc hpi hl e32 he .vocoder (by decide)
+    have h1' : Burst.parse c f.dmrBits (Burst.mmdvmAnnounced f) = .ok q := by rw [ha, hf]; exact h1
+    exact ⟨⟨q, Burst.mmdvmAux f⟩, Burst.fromMmdvm_of_parse c f q h1', h2, h7⟩
+  · intro f hk hf
+    obtain ⟨q, h1, h2, _, _, _, _, h7⟩ :=
+      Burst.voice_emb_roundtrip c v hv cc pi lcss hcc hpi hl e32 he .vocoder (by decide)
+    have h1' : Burst.parse c f.payloadBits .vocoder = .ok q := by rw [hf]; exact h1
+    exact ⟨⟨q, Burst.ipscAux f⟩, Burst.fromIpsc_of_parse c f .vocoder q hk h1', h2, h7⟩
+
 /-! ## non-vacuity -/
 
 example : (246245464858461 : Nat) ∈ dataSyncs := by decide
@@ -199,5 +298,19 @@ example (c : Crcs) : Burst.Built c (.csbk ⟨true, false, 0, 0x1234, .nackRsp 0 
   ⟨by decide, by simp [Csbk.init]⟩
 example (c : Crcs) : Burst.Built c (.rate34 ⟨List.replicate 16 0xAB, 5, 77, 0⟩) :=
   ⟨.confirmed, ⟨List.replicate 16 0xAB, 5, 77, 0⟩, by decide, by rfl⟩
+
+/-- a DMRD frame object as the Kaitai parser returns it, slot bit 1: timeslot attribute 2, announced as vocoder -/
+example : (Burst.mmdvmAux ⟨.member 2, .member 1, 7, 1, 2, 3, []⟩).timeslot = 2
+    ∧ Burst.mmdvmAnnounced ⟨.member 2, .member 1, 7, 1, 2, 3, []⟩ = .vocoder
+    ∧ Burst.mmdvmAnnounced ⟨.int 2, .member 1, 7, 1, 2, 3, []⟩ = .dataAndControl := by decide
+/-- IPSC: CSBK slot type on timeslot 2 is a `Burst` announced as data with timeslot attribute 2; the voice
+frame slot types are vocoder; the sync slot type and the wakeup call types give pseudo bursts -/
+example : Burst.ipscKind ⟨0x3333, 1, 0x2222, 0, 0, 0, []⟩ = .ok (.plain .dataAndControl)
+    ∧ (Burst.ipscAux ⟨0x3333, 1, 0x2222, 0, 0, 0, []⟩).timeslot = 2
+    ∧ Burst.ipscKind ⟨0x7777, 0, 0x1111, 0, 0, 0, []⟩ = .ok (.plain .vocoder)
+    ∧ Burst.ipscKind ⟨0xEEEE, 0, 0x1111, 0, 0, 0, []⟩ = .ok .sync
+    ∧ Burst.ipscKind ⟨0x3333, 12, 0x1111, 0, 0, 0, []⟩ = .ok .wakeup
+    ∧ Burst.ipscKind ⟨0x1234, 0, 0x1111, 0, 0, 0, []⟩ = .error .valueError :=
+  ⟨rfl, rfl, rfl, rfl, rfl, rfl⟩
 
 end Dmr.C01
